@@ -157,6 +157,42 @@ pub fn xo_case(two_point: bool, f: Flavour, l1: usize, l2: usize) -> (u64, u64, 
         },
         10_000_000,
     );
+    // the per-leaf oracle once more on every stream over the grid plus the extreme words 0 and all-ones
+    let mut ext_leaves = 0u64;
+    if viols.is_empty() && l <= 4 {
+        let ext = Alphabet::Ext(if two_point { (l as u32 + 1).max(2) } else { 2 });
+        let st2 = explore(
+            |env| recombine(two_point, f, l1, l2, env, ext),
+            |_, _, o| {
+                let what = match &o {
+                    XoObs::Panic(p) => Some(("panic", format!("panicked: {p}"))),
+                    XoObs::ErrLength if l1 == l2 => Some(("spurious-length-error", "equal-length parents rejected".to_string())),
+                    XoObs::ErrLength => None,
+                    XoObs::ErrOther(e) => Some(("other-error", format!("unexpected error {e}"))),
+                    XoObs::Child(c) => {
+                        if l1 != l2 {
+                            Some(("length-mismatch-accepted", format!("parents of different lengths gave a child {c:?}")))
+                        } else if c.len() != l {
+                            Some(("child-length", format!("child has length {}", c.len())))
+                        } else if c.iter().any(|p| *p == 0) {
+                            Some(("foreign-gene", format!("child {c:?} has a gene that neither parent has at that position")))
+                        } else if two_point && single_run(c).is_none() {
+                            Some(("not-contiguous", format!("genes from the second parent do not form one segment: {c:?}")))
+                        } else {
+                            None
+                        }
+                    }
+                };
+                if let Some((k, w)) = what {
+                    if viols.len() < 3 {
+                        viols.push((format!("{name}/{k}"), format!("{label} (stream with extreme words): {w}")));
+                    }
+                }
+            },
+            1_000_000,
+        );
+        ext_leaves = st2.leaves;
+    }
     if let Some(d) = &st.diverged {
         viols.push((format!("{name}/nondeterministic"), format!("{label}: {d}")));
     }
@@ -189,7 +225,7 @@ pub fn xo_case(two_point: bool, f: Flavour, l1: usize, l2: usize) -> (u64, u64, 
             }
         }
     }
-    (st.leaves, st.choice_points, viols, law.mass.len())
+    (st.leaves + ext_leaves, st.choice_points, viols, law.mass.len())
 }
 
 /// E3: the exchange primitives of Bitstring
@@ -290,7 +326,7 @@ pub fn run(run: &mut Run) {
     run.states = cases.len() as u64 + p;
     run.traces_validated = run.evaluations;
     run.distinct_nontrivial = nontrivial;
-    run.rule = "TwoPointXo and UniformXo in 6 flavours ([Vec;2], (Vec,Vec), [Bitstring;2], (Bitstring,Bitstring), through Recombine, behind &) x all length pairs 0..L x all grid word sequences on tagged parents; per leaf: error iff lengths differ, child gene i from a parent's position i, one contiguous segment (two-point); over all leaves: every segment [a,b) reachable, uniform mask law exactly 2^-l; plus crossover_gene / crossover_segment for all indices / ranges up to length+2 on all length pairs 0..4. non-trivial = scenarios with more than one distinct child".into();
+    run.rule = "TwoPointXo and UniformXo in 6 flavours ([Vec;2], (Vec,Vec), [Bitstring;2], (Bitstring,Bitstring), through Recombine, behind &) x all length pairs 0..L x all grid word sequences on tagged parents (and, lengths <= 4, all sequences over the grid plus the extreme words 0 and all-ones, per-leaf oracle only); per leaf: error iff lengths differ, child gene i from a parent's position i, one contiguous segment (two-point); over all leaves: every segment [a,b) reachable, uniform mask law exactly 2^-l; plus crossover_gene / crossover_segment for all indices / ranges up to length+2 on all length pairs 0..4. non-trivial = scenarios with more than one distinct child".into();
     run.bound("max_length", json!(max_l));
     run.bound("alphabet", json!("Grid(l*(l+1)) for two-point, Grid(2) for uniform"));
     run.assumptions = vec!["Grid(l(l+1)) is exact for cut points drawn from 0..l as well as from 0..=l".into()];
